@@ -80,8 +80,17 @@ def NAMED(name):
 
 
 def prune(t):
+    """Resolve type variables (deeply, so that resolved types can be compared with ==)."""
     while isinstance(t, Var) and t.ref is not None:
         t = t.ref
+    if isinstance(t, Var):
+        return t
+    if t[0] in ("list", "set"):
+        return (t[0], prune(t[1]))
+    if t[0] == "tuple":
+        return ("tuple", tuple(prune(x) for x in t[1]))
+    if t[0] == "dict":
+        return ("dict", prune(t[1]), prune(t[2]))
     return t
 
 
@@ -263,6 +272,7 @@ class Translator:
         self.tmp = 0
         self.frames = []
         self.func_nodes = {}
+        self.captured = {}                          # python name of a nested def -> [(captured variable, type)]
         self.holes = []
         self.ret_ty = None
 
@@ -293,11 +303,24 @@ class Translator:
             self.frames.pop()
 
     def coerce(self, v, ty):
-        """Total code of `v` at type `ty` (only Nat -> Int is a coercion)."""
+        """Total code of `v` at type `ty`.  Coercions: Nat -> Int and List Nat -> List Int (embeddings); Int -> Nat and
+        List Int -> List Nat are *narrowings*: a negative value is the error "ModelDomain:negative" (the model types the
+        target as non-negative; nothing is clipped)."""
         code = self.pure(v)
         a, b = prune(v.ty), prune(ty)
-        if not isinstance(a, Var) and not isinstance(b, Var) and a == NAT and b == INT:
-            return f"(Int.ofNat {atom(code)})"
+        if not isinstance(a, Var) and not isinstance(b, Var):
+            if a == NAT and b == INT:
+                return f"(Int.ofNat {atom(code)})"
+            if a == LIST(NAT) and b == LIST(INT):
+                return f"({atom(code)}.map Int.ofNat)"
+            if a == INT and b == NAT:
+                n = self.fresh()
+                self.frame().bind(n, f"Py.natOfInt {atom(code)}")
+                return n
+            if a == LIST(INT) and b == LIST(NAT):
+                n = self.fresh()
+                self.frame().bind(n, f"{atom(code)}.mapM Py.natOfInt")
+                return n
         if not unify(v.ty, ty):
             raise Outside(f"type mismatch: {tykey(v.ty)} where {tykey(ty)} is expected")
         return code
@@ -359,6 +382,20 @@ class Translator:
 
     def e_List(self, n, env):
         return self.as_list(n, env)
+
+    def e_Dict(self, n, env):
+        if not n.keys:
+            return Val("[]", DICT(Var(), Var()))
+        if any(k is None for k in n.keys):
+            raise Outside("dict display with ** unpacking")
+        ks = [self.expr(k, env) for k in n.keys]
+        vs = [self.expr(v, env) for v in n.values]
+        kt = ks[0].ty
+        vt = INT if any(prune(v.ty) == INT for v in vs) else vs[0].ty
+        code = "[]"
+        for k, v in zip(ks, vs):
+            code = f"(Py.dictSet {code} {atom(self.coerce(k, kt))} {atom(self.coerce(v, vt))})"
+        return Val(code, DICT(kt, vt))
 
     def listy(self, n, env):
         """Translate `n` where a list is expected: tuple displays are read as lists."""
@@ -713,9 +750,15 @@ class Translator:
 
     def call_translated(self, f, n, env):
         lean, ptys, rty, partial = self.funcs[f]
-        if n.keywords or len(n.args) != len(ptys):
+        captured = self.captured.get(f, [])
+        if n.keywords or len(n.args) != len(ptys) - len(captured):
             raise Outside(f"call of {f} with keywords or a different number of arguments")
         args = [atom(self.coerce(self.expr(a, env), t)) for a, t in zip(n.args, ptys)]
+        # a closure reads its captured variables when it is called: pass their current values
+        for nm, t in captured:
+            if nm not in env:
+                raise Outside(f"{f} captures {nm}, which is not bound at the call")
+            args.append(atom(self.coerce(Val(ident(nm), env[nm]), t)))
         return Val("(" + " ".join([lean] + args) + ")", rty, partial)
 
     def args1(self, n, k=1):
@@ -1110,17 +1153,16 @@ class Translator:
             if not isinstance(ct, Var) and ct[0] == "list":
                 if meth == "append" and len(args) == 1:
                     v = self.expr(args[0], env)
-                    if prune(ct[1]) == INT:
-                        c = self.coerce(v, INT)
-                    else:
-                        c = self.coerce(v, ct[1])
-                    fr.let(ident(nm), f"{ident(nm)} ++ [{c}]")
+                    lst = self.widen(nm, v, env)
+                    c = self.coerce(v, prune(env[nm])[1])
+                    self.frame().let(ident(nm), f"{lst} ++ [{c}]")
                     return
                 if meth == "insert" and len(args) == 2:
                     ic = self.coerce(self.expr(args[0], env), INT)
                     v = self.expr(args[1], env)
-                    c = self.coerce(v, INT if prune(ct[1]) == INT else ct[1])
-                    fr.let(ident(nm), f"Py.listInsert {ident(nm)} {atom(ic)} {atom(c)}")
+                    lst = self.widen(nm, v, env)
+                    c = self.coerce(v, prune(env[nm])[1])
+                    self.frame().let(ident(nm), f"Py.listInsert {lst} {atom(ic)} {atom(c)}")
                     return
                 if meth == "extend" and len(args) == 1:
                     v = self.listy(args[0], env)
@@ -1129,6 +1171,14 @@ class Translator:
                     return
             raise Outside(f"method statement {ast.unparse(s)[:50]}")
         raise Outside(f"statement {type(s).__name__}: {ast.unparse(s)[:60]}")
+
+    def widen(self, nm, v, env):
+        """A `List Nat` variable that receives an `Int` becomes a `List Int` (embedding); returns the code of the list."""
+        ct = prune(env[nm])
+        if ct == LIST(NAT) and prune(v.ty) == INT:
+            env[nm] = LIST(INT)
+            return f"({ident(nm)}.map Int.ofNat)"
+        return ident(nm)
 
     def empty_literal(self, n):
         if isinstance(n, ast.List) and not n.elts:
@@ -1207,12 +1257,14 @@ class Translator:
 
     # ---- functions
 
-    def function(self, fn, lean_name, params, ret_ty, drop=(), consts=None, doc=None):
+    def function(self, fn, lean_name, params, ret_ty, drop=(), consts=None, doc=None, captured=(), outer_env=None):
         """Translate `fn` into `def lean_name (params) : ret := ...`.
 
         params: [(python name, type)] for the parameters that the model keeps, in Lean order; `drop`: parameters that
         the model does not have (they must not be referenced except through Domain.calls); `consts`: {python name: Val}
-        parameters fixed to a constant."""
+        parameters fixed to a constant; `captured`: [(name, type)] local variables of the enclosing function that a nested
+        def reads (they become extra parameters, passed with their value at each call); `outer_env`: {name: Val} free
+        variables bound to constants by the enclosing scope."""
         self.holes = []
         self.ret_ty = ret_ty
         names = [a.arg for a in fn.args.posonlyargs + fn.args.args + fn.args.kwonlyargs]
@@ -1222,9 +1274,11 @@ class Translator:
         if set(names) != declared:
             raise Outside(f"parameters of {fn.name} are {names}, the translation declares {sorted(declared)}")
         env = {p: t for p, t in params}
+        for nm, t in captured:
+            env[nm] = t
         self.frames.append(Frame())
         try:
-            for nm, v in (consts or {}).items():
+            for nm, v in list((consts or {}).items()) + list((outer_env or {}).items()):
                 self.frame().let(ident(nm), v.code)
                 env[nm] = v.ty
             inner = self._block(list(fn.body), env, RET)
@@ -1236,15 +1290,17 @@ class Translator:
             code = code.replace(f"\x00{i}\x00", lean_ty(t))
         if "\x00" in code:
             raise Outside("unresolved type annotation")
-        sig = " ".join(f"({ident(p)} : {lean_ty(t)})" for p, t in params)
+        sig = " ".join(f"({ident(p)} : {lean_ty(t)})" for p, t in list(params) + list(captured))
         rt = lean_ty(ret_ty)
         full_rt = f"Except String {rt}" if body.partial else rt
         text = ""
         if doc:
             text += "/-- " + doc.replace("-/", "- /") + " -/\n"
         text += f"def {lean_name} {sig} : {full_rt} :=\n{indent(code)}\n"
-        self.funcs[fn.name] = (lean_name, [t for _, t in params], ret_ty, body.partial)
+        self.funcs[fn.name] = (lean_name, [t for _, t in list(params) + list(captured)], ret_ty, body.partial)
         self.func_nodes[fn.name] = fn
+        if captured:
+            self.captured[fn.name] = list(captured)
         return text, body.partial
 
 
